@@ -51,7 +51,23 @@ def reaches (bs : List BlockAbs) : Nat → Hash → Bool
     | some b => reaches bs f b.parent
     | none => false
 
-def parseOp? (bs : List BlockAbs) (t : String) : Option Op :=
+/-- driver-level ops: the ops of the proved histories plus `ProcessBlock(BFFastAdd)` and a clean
+restart (modelled, used for the correspondence only) -/
+inductive DOp where
+  | op (o : Op)
+  | fast (b : BlockAbs)
+  | restart
+deriving Inhabited
+
+def stepD (s : State) : DOp → State × Res
+  | .op o => step s o
+  | .fast b => processBlockFast s b
+  | .restart => (restart s, .ok)
+
+/-- op tokens: b<id> ProcessBlock, n<id> ProcessBlock with BFNoPoWCheck (same effect on valid PoW),
+f<id> ProcessBlock with BFFastAdd, h<id> / k<id> ProcessBlockHeader (k: skipCheckpoint, no
+checkpoints configured), i<id> InvalidateBlock, r<id> ReconsiderBlock, R<n> restart (n = config variant) -/
+def parseOp? (bs : List BlockAbs) (t : String) : Option DOp :=
   match t.toList with
   | k :: rest =>
     let body := String.ofList rest
@@ -60,14 +76,16 @@ def parseOp? (bs : List BlockAbs) (t : String) : Option Op :=
     | none => none
     | some id =>
       let blk := bs.find? (fun b => b.hash == id)
-      if k == 'b' then blk.map Op.block
-      else if k == 'h' then blk.map Op.header
-      else if k == 'i' then (if id == 0 || blk.isSome then some (.invalidate id ch) else none)
-      else if k == 'r' then (if id == 0 || blk.isSome then some (.reconsider id ch) else none)
+      if k == 'b' || k == 'n' then blk.map (fun b => DOp.op (Op.block b))
+      else if k == 'f' then blk.map DOp.fast
+      else if k == 'h' || k == 'k' then blk.map (fun b => DOp.op (Op.header b))
+      else if k == 'i' then (if id == 0 || blk.isSome then some (.op (.invalidate id ch)) else none)
+      else if k == 'r' then (if id == 0 || blk.isSome then some (.op (.reconsider id ch)) else none)
+      else if k == 'R' then some .restart
       else none
   | [] => none
 
-def parseOps? (bs : List BlockAbs) (t : String) : Option (List Op) :=
+def parseOps? (bs : List BlockAbs) (t : String) : Option (List DOp) :=
   if t == "-" then some [] else (t.splitOn ",").mapM (parseOp? bs)
 
 def resStr : Res → String
@@ -89,7 +107,7 @@ def heightOf (s : State) (h : Hash) : Nat :=
   | some n => n.height
   | none => 0
 
-/-- res/tip@height/chain/mainbits/statuses/tips/notes -/
+/-- res/tip@height/besthdr@height/chain/mainbits/hdrbits/statuses/tips/notes/orphans -/
 def observe (s : State) (r : Res) (ids : List Hash) (newNotes : List Note) : String :=
   let chain := String.intercalate "." (s.best.reverse.map toString)
   let main := String.join (ids.map (fun i => if s.best.contains i then "1" else "0"))
@@ -102,8 +120,12 @@ def observe (s : State) (r : Res) (ids : List Hash) (newNotes : List Note) : Str
     toString t.1 ++ ":" ++ toString t.2.1 ++ ":" ++ toString t.2.2.1 ++ ":" ++ tipChar t.2.2.2))
   let notesS := if newNotes.isEmpty then "=" else
     String.join (newNotes.map (fun n => match n with | .conn h => "+" ++ toString h | .disc h => "-" ++ toString h))
-  resStr r ++ "/" ++ toString s.tip ++ "@" ++ toString (heightOf s s.tip) ++ "/" ++ chain ++ "/" ++ main ++ "/" ++
-    sts ++ "/" ++ tipsS ++ "/" ++ notesS
+  let hdrBits := String.join (ids.map (fun i => if isValidHeader s i then "1" else "0"))
+  let orph := String.intercalate "." (ids.map (fun i =>
+    if s.orphans.any (fun p => p.1.hash == i) then "o" ++ toString (orphanRoot s.orphans (s.orphans.length + 1) i) else "-"))
+  resStr r ++ "/" ++ toString s.tip ++ "@" ++ toString (heightOf s s.tip) ++ "/" ++
+    toString s.bestHdr ++ "@" ++ toString (heightOf s s.bestHdr) ++ "/" ++ chain ++ "/" ++ main ++ "/" ++ hdrBits ++ "/" ++
+    sts ++ "/" ++ tipsS ++ "/" ++ notesS ++ "/" ++ orph
 
 def sortNat (l : List Nat) : List Nat :=
   l.foldl (fun acc x =>
@@ -118,7 +140,7 @@ structure SpecSt where
   delivered : List BlockAbs := []
   excl : List Hash := []
 
-def specAfter (sp : SpecSt) (o : Op) (s s' : State) : SpecSt :=
+def specAfterOp (sp : SpecSt) (o : Op) (s s' : State) : SpecSt :=
   match o with
   | .block b =>
     let d := if sp.delivered.any (fun x => x.hash == b.hash) then sp.delivered else b :: sp.delivered
@@ -131,28 +153,41 @@ def specAfter (sp : SpecSt) (o : Op) (s s' : State) : SpecSt :=
     else if sp.excl.contains h then sp else { sp with excl := h :: sp.excl }
   | .reconsider h _ => { sp with excl := sp.excl.filter (· != h) }
 
+def specAfter (sp : SpecSt) (o : DOp) (s s' : State) : SpecSt :=
+  match o with
+  | .op o => specAfterOp sp o s s'
+  | .fast b => specAfterOp sp (.block b) s s'
+  -- the orphan pool does not survive a restart: what was only pooled is no longer delivered
+  | .restart => { sp with delivered := sp.delivered.filter (fun x => (s'.status x.hash).data) }
+
 def specOk (sp : SpecSt) (s : State) : Bool :=
   Spec.bestWork sp.delivered sp.excl == s.wsum s.tip
 
 def stepNotes (s s' : State) : List Note := (s'.notes.take (s'.notes.length - s.notes.length)).reverse
 
 /-- check the Spec after every op on small trees, otherwise after i/r ops and at the end -/
-def checkHere (n : Nat) (o : Op) (last : Bool) : Bool :=
-  last || n ≤ 40 || (match o with | .invalidate .. => true | .reconsider .. => true | _ => false)
+def checkHere (n : Nat) (o : DOp) (last : Bool) : Bool :=
+  last || n ≤ 40 || (match o with | .op (.invalidate ..) => true | .op (.reconsider ..) => true | _ => false)
 
-def runObs (ids : List Hash) : State → SpecSt → List Op → List String → List String
+def isFast : DOp → Bool
+  | .fast _ => true
+  | _ => false
+
+/-- `chk = false` switches the Spec consultation off (histories with BFFastAdd deliveries, whose
+checks are skipped by design) -/
+def runObs (chk : Bool) (ids : List Hash) : State → SpecSt → List DOp → List String → List String
   | _, _, [], acc => acc.reverse
   | s, sp, o :: rest, acc =>
-    let (s', r) := step s o
+    let (s', r) := stepD s o
     let sp' := specAfter sp o s s'
-    if checkHere ids.length o rest.isEmpty && !specOk sp' s' then
+    if chk && checkHere ids.length o rest.isEmpty && !specOk sp' s' then
       (("!spec/" ++ toString (Spec.bestWork sp'.delivered sp'.excl)) :: acc).reverse
-    else runObs ids s' sp' rest (observe s' r ids (stepNotes s s') :: acc)
+    else runObs chk ids s' sp' rest (observe s' r ids (stepNotes s s') :: acc)
 
 /-! #### explain / amb: the admissible choices of an i/r op -/
 
-def choicesOf (s : State) : Op → List (Option Hash)
-  | .invalidate h _ =>
+def choicesOf (s : State) : DOp → List (Option Hash)
+  | .op (.invalidate h _) =>
     -- simulate up to the selection point: the candidates are determined by the state after detaching
     match lookup s.idx h with
     | none => [none]
@@ -160,41 +195,41 @@ def choicesOf (s : State) : Op → List (Option Hash)
       if !(s.best.contains h) then [none] else
       -- all inactive tips may be named; `pick` ignores names outside the max-work set
       none :: ((s.idx.map (fun n => some n.blk.hash)))
-  | .reconsider h _ => none :: (s.idx.map (fun n => some n.blk.hash))
+  | .op (.reconsider h _) => none :: (s.idx.map (fun n => some n.blk.hash))
   | _ => [none]
 
-def withChoice : Op → Option Hash → Op
-  | .invalidate h _, c => .invalidate h c
-  | .reconsider h _, c => .reconsider h c
+def withChoice : DOp → Option Hash → DOp
+  | .op (.invalidate h _), c => .op (.invalidate h c)
+  | .op (.reconsider h _), c => .op (.reconsider h c)
   | o, _ => o
 
-def distinctOutcomes (s : State) (o : Op) (ids : List Hash) : List String :=
-  ((choicesOf s o).map (fun c => let (s', r) := step s (withChoice o c); observe s' r ids (stepNotes s s'))).eraseDups
+def distinctOutcomes (s : State) (o : DOp) (ids : List Hash) : List String :=
+  ((choicesOf s o).map (fun c => let (s', r) := stepD s (withChoice o c); observe s' r ids (stepNotes s s'))).eraseDups
 
-def ambRun (ids : List Hash) : State → List Op → Bool
+def ambRun (ids : List Hash) : State → List DOp → Bool
   | _, [] => false
   | s, o :: rest =>
     if (distinctOutcomes s o ids).length > 1 then true
-    else ambRun ids (step s o).1 rest
+    else ambRun ids (stepD s o).1 rest
 
-def explainRun (ids : List Hash) : State → SpecSt → List Op → List String → Nat → String
+def explainRun (ids : List Hash) : State → SpecSt → List DOp → List String → Nat → String
   | _, _, [], _, _ => "ok"
   | _, _, _ :: _, [], k => "nomatch@" ++ toString k
   | s, sp, o :: rest, g :: gs, k =>
     let cs := choicesOf s o
-    match cs.find? (fun c => let (s', r) := step s (withChoice o c); observe s' r ids (stepNotes s s') == g) with
+    match cs.find? (fun c => let (s', r) := stepD s (withChoice o c); observe s' r ids (stepNotes s s') == g) with
     | none => "nomatch@" ++ toString k
     | some c =>
-      let (s', _) := step s (withChoice o c)
+      let (s', _) := stepD s (withChoice o c)
       let sp' := specAfter sp o s s'
       if !specOk sp' s' then
         match o with
-        | .invalidate .. => "F-C02-a@" ++ toString k
-        | .reconsider .. => "F-C02-b@" ++ toString k
+        | .op (.invalidate ..) => "F-C02-a@" ++ toString k
+        | .op (.reconsider ..) => "F-C02-b@" ++ toString k
         | _ => "spec@" ++ toString k
       else explainRun ids s' sp' rest gs (k + 1)
 
-def prep (tree ops : String) : Option (List BlockAbs × List Op × List Hash) :=
+def prep (tree ops : String) : Option (List BlockAbs × List DOp × List Hash) :=
   match parseTree? tree with
   | none => none
   | some bs =>
@@ -203,13 +238,25 @@ def prep (tree ops : String) : Option (List BlockAbs × List Op × List Hash) :=
     | none => none
     | some os => some (bs, os, sortNat (bs.map (·.hash)))
 
+def runLine (tree ops : String) : String :=
+  match prep tree ops with
+  | none => "bad-op"
+  | some (_, os, ids) =>
+    let out := runObs (!(os.any isFast)) ids init {} os []
+    if out.isEmpty then "-" else String.intercalate ";" out
+
+/-- `par t1 o1 t2 o2 …`: independent histories (run concurrently by the harness), answers joined by `#` -/
+def runPar : List String → Option (List String)
+  | [] => some []
+  | [_] => none
+  | t :: o :: rest => (runPar rest).map (fun r => runLine t o :: r)
+
 def handle : List String → String
-  | ["run", tree, ops] =>
-    match prep tree ops with
-    | none => "bad-op"
-    | some (_, os, ids) =>
-      let out := runObs ids init {} os []
-      if out.isEmpty then "-" else String.intercalate ";" out
+  | ["run", tree, ops] => runLine tree ops
+  | "par" :: rest =>
+    match runPar rest with
+    | some (a :: r) => String.intercalate "#" (a :: r)
+    | _ => "bad-op"
   | ["amb", tree, ops] =>
     match prep tree ops with
     | none => "bad-op"
